@@ -151,7 +151,10 @@ def hasManyMember : List Ty → Bool
 /-! ## Boolability (boolability.py) -/
 
 /-- `_get_boolability_no_mvv` (boolability.py:100). A falsy literal of an always-true type trips an
-`assert` in the code; the universe has none, the model answers `erroring`. -/
+`assert` in the code; the universe has none, the model answers `erroring`. A union reaching this
+function (a union nested in a union / in `Annotated` inside a union; since /repo 67ee234 handed back
+to `get_boolability`, before that an `assert False`) is outside the fragment: values are flat
+(`valueOk`), the model answers `boolable` there and the harness never builds such a value. -/
 def boolNoMvv (tbl : ClassTable) (T : BoolTable) (v : Ty) : Boolab :=
   match unannAll v with
   | .any => .boolable
